@@ -242,6 +242,148 @@ def gen_rule(rng, max_atoms=4, layout=True):
     return s + _ws(rng, layout) * (rng.random() < 0.5) + '}'
 
 
+SEMANTIC_FAULTS = ['none', 'cross_reactant_bond', 'cross_reactant_bond',
+                   'undefined_label', 'self_bond_statement', 'self_bond_atom',
+                   'same_reactant_name', 'duplicate_label', 'wrong_bond_type',
+                   'nonbonded_pair', 'repeat_bond', 'label_swap']
+
+
+def _plain_reactant(rng, name, stem, natoms):
+    """A syntactically and semantically plain reactant: a chain of C/H/O/N
+    atoms, single or double bonds, '?' or no suffix."""
+    lines = []
+    labels = []
+    bonds = []
+    for i in range(natoms):
+        lab = '%s%d' % (stem, i + 1)
+        a = rng.choice(['C', 'C', 'C', 'H', 'O', 'N']) + rng.choice(['', '?'])
+        s = '%s labeled %s' % (a, lab)
+        if i:
+            to = rng.choice(labels)
+            bt = rng.choice(['single', 'single', 'double'])
+            s += ' %s bond to %s' % (bt, to)
+            bonds.append((lab, to, bt))
+        labels.append(lab)
+        lines.append(s)
+    return name, labels, bonds, lines
+
+
+def gen_semantic_rule(rng):
+    """A well-formed rule with (usually) one *semantic* fault: label
+    misuse, bond statements across reactants, self bonds, repeated bonds,
+    clashing names.  These reach the reader's own error paths, behind the
+    syntax."""
+    fault = rng.choice(SEMANTIC_FAULTS)
+    nre = 2 if fault in ('cross_reactant_bond', 'same_reactant_name') or \
+        rng.random() < 0.3 else 1
+    reacts = []
+    for ri in range(nre):
+        n = rng.randrange(1, 3) if ri == 0 and rng.random() < 0.5 \
+            else rng.randrange(2, 5)
+        reacts.append(_plain_reactant(rng, 'r%d' % (ri + 1),
+                                      'cd'[ri] if ri < 2 else 'e', n))
+    if fault == 'same_reactant_name':
+        reacts[1] = (reacts[0][0],) + reacts[1][1:]
+    if fault == 'duplicate_label' and reacts[-1][1]:
+        name, labels, bonds, lines = reacts[-1]
+        lines.append('C labeled %s single bond to %s'
+                     % (rng.choice(reacts[0][1]), labels[-1]))
+    if fault == 'self_bond_atom':
+        name, labels, bonds, lines = reacts[0]
+        lines.append('C labeled z9 %s bond to z9'
+                     % rng.choice(['single', 'double', 'any']))
+    if fault == 'repeat_bond':
+        name, labels, bonds, lines = reacts[0]
+        if bonds:
+            a, b, bt = rng.choice(bonds)
+            lines.append('ringbond %s %s bond to %s'
+                         % (a, rng.choice(['single', 'double']), b))
+    all_labels = [l for r in reacts for l in r[1]]
+    all_bonds = [b for r in reacts for b in r[2]]
+    # transformations
+    trans = []
+    kind = rng.choice(['break', 'break', 'modify', 'form', 'increase',
+                       'decrease'])
+    if fault == 'cross_reactant_bond':
+        a = rng.choice(reacts[0][1])
+        b = rng.choice(reacts[1][1])
+        if rng.random() < 0.5:
+            a, b = b, a
+    elif fault == 'undefined_label':
+        a, b = rng.choice(all_labels), 'zz9'
+    elif fault == 'self_bond_statement':
+        a = b = rng.choice(all_labels)
+    elif fault == 'nonbonded_pair' or not all_bonds:
+        a, b = rng.choice(all_labels), rng.choice(all_labels)
+    else:
+        a, b, bt = rng.choice(all_bonds)
+    bt = 'single'
+    for (x, y, t) in all_bonds:
+        if set((x, y)) == set((a, b)):
+            bt = t
+    if fault == 'wrong_bond_type':
+        bt = 'double' if bt == 'single' else 'single'
+    if fault == 'label_swap':
+        a, b = b, a
+    if kind == 'break':
+        trans.append('break %sbond (%s, %s)'
+                     % ('' if bt == 'single' and rng.random() < 0.5
+                        else bt + ' ', a, b))
+        order = {'single': 1, 'double': 2}[bt]
+        for _ in range(order):
+            trans.append('increase number of radical (%s)' % a)
+            trans.append('increase number of radical (%s)' % b)
+    elif kind == 'modify':
+        trans.append('modify bond (%s, %s, %s)'
+                     % (a, b, rng.choice(['single', 'double', 'aromatic',
+                                          'triple'])))
+    elif kind == 'form':
+        trans.append('form %sbond (%s, %s)'
+                     % (rng.choice(['', 'single ', 'double ']), a, b))
+    elif kind == 'increase':
+        trans.append('increase bond order (%s, %s)' % (a, b))
+        trans.append('decrease number of radical (%s)' % a)
+        trans.append('decrease number of radical (%s)' % b)
+    else:
+        trans.append('decrease bond order (%s, %s)' % (a, b))
+        trans.append('increase number of radical (%s)' % a)
+        trans.append('increase number of radical (%s)' % b)
+    if rng.random() < 0.3:
+        rng.shuffle(trans)
+    body = ''
+    for name, labels, bonds, lines in reacts:
+        body += ' reactant %s{ %s }' % (name, ' '.join(lines))
+    return 'rule sem{%s %s }' % (body, ' '.join(trans)), fault
+
+
+def gen_semantic_fragment(rng):
+    fault = rng.choice(['none', 'self_bond_atom', 'undefined_label',
+                        'repeat_bond', 'self_ringbond', 'stereo_misuse',
+                        'duplicate_label'])
+    name, labels, bonds, lines = _plain_reactant(rng, 'f', 'c',
+                                                 rng.randrange(2, 6))
+    if fault == 'self_bond_atom':
+        lines.append('C labeled z9 %s bond to z9'
+                     % rng.choice(['single', 'ring', 'any']))
+    elif fault == 'undefined_label':
+        lines.append('C labeled z9 single bond to nowhere')
+    elif fault == 'repeat_bond' and bonds:
+        a, b, bt = rng.choice(bonds)
+        lines.append('ringbond %s %s bond to %s' % (b, bt, a))
+    elif fault == 'self_ringbond':
+        a = rng.choice(labels)
+        lines.append('ringbond %s single bond to %s' % (a, a))
+    elif fault == 'stereo_misuse' and len(labels) >= 2:
+        a, b = labels[0], labels[1]
+        lines.append('stereo double bond %s cis to %s for double bond '
+                     'between %s and %s' % (a, b, rng.choice(labels),
+                                            rng.choice(labels)))
+    elif fault == 'duplicate_label':
+        lines.append('C labeled %s single bond to %s'
+                     % (labels[0], labels[-1]))
+    return 'fragment sem{ %s }' % ' '.join(lines), fault
+
+
 def gen_noise(rng):
     k = rng.randrange(6)
     if k == 0:
